@@ -933,4 +933,163 @@ theorem parsed_host_lower {idna : Str → Option Str} (hc : ∀ l r, idna l = so
   obtain ⟨h1, h2, h3⟩ := normalizeHost_lower_full hc hs hn
   refine ⟨h1, fun hno => h2 (fun hx => hno (zoned_has_pct (h3 hx.1 hx.2)))⟩
 
+/-! ## the parsed host is ASCII -/
+
+theorem findDoubleColon_some {s bef aft : Str} (h : findDoubleColon s = some (bef, aft)) :
+    s = bef ++ 58 :: 58 :: aft := by
+  induction s generalizing bef with
+  | nil => simp [findDoubleColon] at h
+  | cons a r ih =>
+    cases r with
+    | nil => simp [findDoubleColon] at h
+    | cons b t =>
+      simp only [findDoubleColon] at h
+      split at h
+      · rename_i hc
+        simp only [Bool.and_eq_true, decide_eq_true_eq] at hc
+        simp only [Option.some.injEq, Prod.mk.injEq] at h
+        obtain ⟨rfl, rfl⟩ := h
+        rw [hc.1, hc.2]; rfl
+      · cases hf : findDoubleColon (b :: t) with
+        | none => rw [hf] at h; simp at h
+        | some pr =>
+          obtain ⟨x, y⟩ := pr
+          rw [hf] at h
+          simp only [Option.some.injEq, Prod.mk.injEq] at h
+          obtain ⟨rfl, rfl⟩ := h
+          rw [ih hf]; rfl
+
+theorem digit_hex {c : Nat} (h : isDigitC c = true) : isHexC c = true := by simp [isHexC, h]
+
+/-- a well-formed group list consists of hex digits, colons and dots -/
+theorem countGroups_chars {v4 : Bool} {s : Str} {n : Nat} (h : countGroups v4 s = some n) :
+    ∀ c ∈ s, isHexC c = true ∨ c = 58 ∨ c = 46 := by
+  intro c hc
+  have hj := joinWith_splitOn1 58 s
+  rw [← hj] at hc
+  rcases mem_joinWith hc with hc | ⟨p, hp, hcp⟩
+  · right; left; simpa using hc
+  · unfold countGroups at h
+    simp only at h
+    split at h
+    · rename_i he
+      have : s = [] := by simpa using he
+      subst this
+      simp only [splitOn1, List.mem_singleton] at hp
+      subst hp; simp at hcp
+    · split at h
+      · rename_i hall
+        simp only [List.all_eq_true] at hall
+        have := hall p hp
+        simp only [isH16, Bool.and_eq_true, List.all_eq_true] at this
+        exact Or.inl (this.2 c hcp)
+      · split at h
+        · rename_i l hlast
+          split at h
+          · rename_i hv
+            simp only [Bool.and_eq_true, List.all_eq_true] at hv
+            obtain ⟨⟨-, hd⟩, hl⟩ := hv
+            obtain ⟨ys, hys⟩ := List.getLast?_eq_some_iff.mp hlast
+            rw [hys] at hp hd
+            simp only [List.dropLast_concat] at hd
+            rcases List.mem_append.mp hp with hp | hp
+            · have := hd p hp
+              simp only [isH16, Bool.and_eq_true, List.all_eq_true] at this
+              exact Or.inl (this.2 c hcp)
+            · simp only [List.mem_singleton] at hp
+              subst hp
+              rcases isIPv4_chars hl c hcp with h1 | h1
+              · exact Or.inl (digit_hex h1)
+              · exact Or.inr (Or.inr h1)
+          · simp at h
+        · simp at h
+
+/-- an IPv6 address text consists of hex digits, colons and dots -/
+theorem isIPv6_chars {s : Str} (h : isIPv6 s = true) : ∀ c ∈ s, isHexC c = true ∨ c = 58 ∨ c = 46 := by
+  unfold isIPv6 at h
+  split at h
+  · simp only [Bool.and_eq_true, beq_iff_eq] at h
+    exact countGroups_chars h.1
+  · rename_i bef aft hf
+    have hs := findDoubleColon_some hf
+    split at h
+    · rename_i b a hb ha
+      intro c hc
+      rw [hs] at hc
+      simp only [List.mem_append, List.mem_cons] at hc
+      rcases hc with hc | hc | hc | hc
+      · exact countGroups_chars hb c hc
+      · exact Or.inr (Or.inl hc)
+      · exact Or.inr (Or.inl hc)
+      · exact countGroups_chars ha c hc
+    · simp at h
+
+theorem hexC_lt128 {c : Nat} (h : isHexC c = true ∨ c = 58 ∨ c = 46) : c < 128 := by
+  rcases h with h | h | h
+  · exact (hexC_lt h).1
+  · omega
+  · omega
+
+theorem normalForm_ascii {A : List Nat} {z : Str} (h : NormalForm A z) : ∀ c ∈ z, c < 128 := by
+  obtain ⟨ts, hg, rfl⟩ := h
+  intro c hc
+  simp only [renderToks, List.mem_flatMap] at hc
+  obtain ⟨t, ht, hct⟩ := hc
+  have := hg t ht
+  cases t with
+  | chr d =>
+    simp only [Tok.good, Bool.and_eq_true, decide_eq_true_eq] at this
+    simp only [Tok.text, List.mem_singleton] at hct
+    subst hct; exact this.1.2
+  | esc a b =>
+    simp only [Tok.good, Bool.and_eq_true] at this
+    simp only [Tok.text, List.mem_cons, List.not_mem_nil, or_false] at hct
+    rcases hct with rfl | rfl | rfl
+    · omega
+    · exact (isHexUp_lt this.1).1
+    · exact (isHexUp_lt this.2).1
+
+/-- a bracketed literal whose zone id (if any) is ASCII is ASCII -/
+theorem literal_ascii {h : Str} (hm : ipv6AddrzMatch h = true)
+    (hz : ∀ c ∈ (h.dropWhile (· != 37)).takeWhile (· != 93), c < 128) : ∀ c ∈ h, c < 128 := by
+  obtain ⟨c, rfl, h93, hb⟩ := (ipv6AddrzMatch_iff h).mp hm
+  rcases bracket_cases c hb with ⟨-, h6⟩ | ⟨a, z, rfl, ha37, ha6, -, -⟩
+  · intro x hx
+    simp only [List.cons_append, List.mem_cons, List.mem_append, List.not_mem_nil, or_false] at hx
+    rcases hx with rfl | hx | rfl
+    · omega
+    · exact hexC_lt128 (isIPv6_chars h6 x hx)
+    · omega
+  · have e : 91 :: (a ++ 37 :: z) ++ [93] = 91 :: (a ++ 37 :: (z ++ [93])) := by simp
+    have hz93 : 93 ∉ z := fun e => h93 (by simp [e])
+    have h1 := split_at_ne 37 (91 :: a) (z ++ [93]) (by simp [ha37])
+    have h2 := split_at_ne 93 (37 :: z) [] (by simp [hz93])
+    simp only [List.cons_append] at h1 h2
+    rw [e] at hz ⊢
+    rw [h1.2, h2.1] at hz
+    intro x hx
+    simp only [List.mem_cons, List.mem_append, List.not_mem_nil, or_false] at hx
+    rcases hx with rfl | hx | rfl | hx | rfl
+    · omega
+    · exact hexC_lt128 (isIPv6_chars ha6 x hx)
+    · omega
+    · exact hz x (by simp [hx])
+    · omega
+
+/-- each of the three shapes is ASCII -/
+theorem shape_ascii {h : Str} (hsh : NameHost h ∨ LiteralHost h ∨ ZonedHost h) : h.all (· < 128) = true := by
+  rcases hsh with hn | hl | hz
+  · exact hn.1
+  · apply all_lt_of_forall
+    apply literal_ascii hl.1
+    rw [dropWhile_ne_nil_of_not_mem hl.2.1]; simp
+  · obtain ⟨h6, -, z, hz, hnf⟩ := hz
+    apply all_lt_of_forall
+    apply literal_ascii h6
+    rw [hz]
+    intro c hc
+    rcases List.mem_cons.mp hc with rfl | hc
+    · omega
+    · exact normalForm_ascii hnf c hc
+
 end U3.Url
